@@ -25,9 +25,9 @@ type ChaosCfg struct {
 	NIDs      int            `json:"nids"`
 	Big       int            `json:"big,omitempty"` // documents indexed up front so that searches cross the collector's 1024-match poll
 	AnalysisQ int            `json:"analysis_q"`
-	CloseAt   int            `json:"close_at"`   // yields the closer waits before calling Close
-	CloseTwo  bool           `json:"close_two"`  // a second client calls Close as well
-	CancelAt  []int          `json:"cancel_at"`  // yields before each cancellation
+	CloseAt   int            `json:"close_at"`  // yields the closer waits before calling Close
+	CloseTwo  bool           `json:"close_two"` // a second client calls Close as well
+	CancelAt  []int          `json:"cancel_at"` // yields before each cancellation
 }
 
 // ChaosOp is one client operation.
@@ -129,16 +129,21 @@ func chaosScenario(c *core.Ctx) {
 	}
 	engSig := map[string]string{"engine": cfg.Index.Engine}
 	closeInvoked, closeReturned := -1, -1 // scheduler steps
-	inflightRet := 0                       // latest return step of a call that was in flight when Close was invoked
+	inflightRet := 0                      // latest return step of a call that was in flight when Close was invoked
+	closeOwn := 0                         // scheduling steps of its own that a Close call needed
 	type call struct{ inv int }
 	inflight := map[string]*call{}
 	var cancels []context.CancelFunc // contexts of searches currently in progress
+	// a cancellation: which client's search was cancelled, and how many of its own scheduling steps the client
+	// then needed to return (global steps would measure the fairness of the schedule, not promptness)
 	type cancelled struct {
-		at      int
-		retStep int
-		done    bool
+		client string
+		ownAt  int
+		ownRet int
+		done   bool
 	}
 	var cancelLog []*cancelled
+	searching := map[int]string{} // index into cancels -> client
 	ver := 0
 	calls := 0
 
@@ -211,16 +216,18 @@ func chaosScenario(c *core.Ctx) {
 					}
 					cancels = append(cancels, cancel)
 					mine := len(cancels) - 1
+					searching[mine] = name
 					_, err = idx.SearchInContext(ctx, q)
 					cancels[mine] = nil
+					delete(searching, mine)
 					cancel()
+					for _, cl := range cancelLog {
+						if !cl.done && cl.client == name {
+							cl.done, cl.ownRet = true, s.OwnSteps(name)
+						}
+					}
 					if err != nil && (errors.Is(err, context.Canceled) || errors.Is(err, context.DeadlineExceeded)) {
 						c.Probe("search_cancelled_or_timed_out")
-						for _, cl := range cancelLog {
-							if !cl.done {
-								cl.done, cl.retStep = true, s.Steps
-							}
-						}
 						// the index stays usable
 						if _, err2 := idx.Search(bleve.NewSearchRequest(bleve.NewMatchNoneQuery())); err2 != nil && !isClosedErr(err2) {
 							c.Violate("unusable-after-cancel", engSig, s.Steps, "%s: search after a cancelled search failed: %v", name, err2)
@@ -298,9 +305,13 @@ func chaosScenario(c *core.Ctx) {
 				closeInvoked = s.Steps
 				inflightRet = s.Steps
 			}
+			own0 := s.OwnSteps(name)
 			err := idx.Close()
 			if closeReturned < 0 {
 				closeReturned = s.Steps
+			}
+			if d := s.OwnSteps(name) - own0; d > closeOwn {
+				closeOwn = d
 			}
 			if err != nil && !isClosedErr(err) {
 				c.Violate("close-error", engSig, s.Steps, "%s: Close returned %v", name, err)
@@ -319,11 +330,11 @@ func chaosScenario(c *core.Ctx) {
 				for i := 0; i < w; i++ {
 					s.Yield("canceller-wait")
 				}
-				for _, cf := range cancels {
+				for i, cf := range cancels {
 					if cf != nil {
 						cf()
 						c.Fault("context_cancelled")
-						cancelLog = append(cancelLog, &cancelled{at: s.Steps})
+						cancelLog = append(cancelLog, &cancelled{client: searching[i], ownAt: s.OwnSteps(searching[i])})
 					}
 				}
 			}
@@ -338,12 +349,15 @@ func chaosScenario(c *core.Ctx) {
 	}
 	c.Res.Completed = true
 	c.Res.Checks = calls
-	if closeReturned >= 0 && closeReturned-inflightRet > 5000 {
-		c.Violate("close-too-slow", engSig, s.Steps, "Close returned at step %d, %d steps after the last call in flight at its invocation returned (step %d)", closeReturned, closeReturned-inflightRet, inflightRet)
+	// Close completes: it returned at all (a Close that never returns ends the run as a deadlock), and it did not
+	// need an unbounded number of its own steps (lock-wait spinning)
+	if closeOwn > 5000 {
+		c.Violate("close-too-slow", engSig, s.Steps, "a Close call needed %d scheduling steps of its own", closeOwn)
 	}
+	_ = inflightRet
 	for _, cl := range cancelLog {
-		if cl.done && cl.retStep-cl.at > 2000 {
-			c.Violate("cancel-too-slow", engSig, s.Steps, "a search cancelled at step %d returned only at step %d", cl.at, cl.retStep)
+		if cl.done && cl.ownRet-cl.ownAt > 1500 {
+			c.Violate("cancel-too-slow", engSig, s.Steps, "%s: a search whose context was cancelled needed %d more scheduling steps of its own to return", cl.client, cl.ownRet-cl.ownAt)
 		}
 	}
 	for _, e := range env.AsyncErrors() {
